@@ -37,3 +37,28 @@ def generate(ctx):
                 seen.add(k)
                 out.append(rec)
     return out
+
+
+def record_and_validate(ctx, n):
+    """code -> spec: resolution queries on randomly grown rooms (real events, real auth, real resolution),
+    validated by StateRes_trace.tla."""
+    from vlib.core import MachineryError
+    trace = os.path.join(ctx.scratch, "stateres_trace.ndjson")
+    res = ctx.harness("c10rec", args=["-out", trace, "-n", n])
+    for r in res:
+        if not r.get("ok"):
+            ctx.disagree("panic/resolve-while-growing-a-room", r.get("what", "panic")[:2000], {"count": 1})
+
+    def on_reject(rec, lineno):
+        # re-materialise the room from the logged abstract events and ask the real resolver again (fresh process)
+        probe = {"ver": rec["ver"], "events": rec["events"], "sets": rec["sets"], "tips": rec["tips"], "result": rec["got"],
+                 "unconflicted": [], "power": [], "others": [], "authdiff": [], "subgraph": [], "rejected": []}
+        out = [r for r in ctx.harness("c10", [probe]) if "i" in r]
+        if not out or not out[0].get("ok"):
+            raise MachineryError("recorded resolution of trace line %d did not reproduce in a fresh process" % lineno)
+        ctx.disagree("C10/trace/%s/unexplained-result" % rec["ver"],
+                     "ResolveConflictsNew returned %s for state sets %s of a %d-event room (version %s); StateRes.tla derives a different state"
+                     % (rec["got"], rec["sets"], len(rec["events"]), rec["ver"]),
+                     {"harness": "c10", "record": probe, "result": {"got": rec["got"]}, "count": 1})
+
+    ctx.validate_trace("StateRes_trace", "StateRes_trace.cfg", trace, on_reject, timeout=2400)
